@@ -1,8 +1,11 @@
 (* C20 - results do not depend on goroutine interleaving; shared objects are race-free.
 
    What is proved here is the LOGIC of sharing (see Conc/AccessModel.v for the machine):
-     1. race_free_serializable      every complete interleaving of a race-free program ends in the state of a
-                                    sequential execution of its blocks                      (all programs, all schedules)
+     1. race_free_serializable      flat lock-protected sections: every complete interleaving of a race-free program ends in
+                                    the state of a sequential execution of its blocks        (all programs, all schedules)
+     1'. race_free_region_serializable   nested locks taken and released where the code does, sync.RWMutex with shared
+                                    readers: every complete interleaving ends in the state of an execution in which the
+                                    regions (accesses between two synchronisation operations) are not interleaved
      2. gmsm_access_table_race_free the access table of gmsm (Conc/AccessTable.v) meets the hypothesis of 1 for every
                                     program built from its rows, rotation of ticket keys at any time included
                                     (true since /repo 43260b6; before, this statement was refuted)
@@ -10,8 +13,8 @@
    The Go scheduler, the Go memory model and the correspondence table <-> code are NOT proved; the table is
    validated per run by the race detector (checks/c20.py).  Property theorems only; proofs in Conc/*.v. *)
 From Coq Require Import List Arith Bool Lia.
-From GmsmVerif Require Import Conc.AccessModel Conc.ConcLists Conc.ConcProofs Conc.AccessTable Conc.TableProofs
-  Conc.ActiveCall Conc.ActiveProofs.
+From GmsmVerif Require Import Conc.AccessModel Conc.ConcLists Conc.ConcProofs Conc.NestModel Conc.NestProofs Conc.AccessTable Conc.TableProofs
+  Conc.ActiveCall Conc.ActiveProofs Conc.SourceTie Conc.SourceTieProofs Gen.ConcWriteSets.
 Import ListNotations.
 
 (* ---------------------------------------------------------------------------------------------------------- *)
@@ -40,7 +43,6 @@ Print Assumptions race_free_serializable.
    and in the full state of one of the two sequential orders. *)
 Definition counter_prog : list (list block) := [[Sec [0] [Rd 0; Wr 0]]; [Sec [0] [Rd 0; Wr 0]]].
 Definition incr (t : nat) (log : list nat) : nat := S (last log 0).
-Definition no_once (o : nat) : list (nat * nat) := [].
 
 Fixpoint list_eqb (a b : list nat) : bool :=
   match a, b with
@@ -93,27 +95,80 @@ Example once_all_interleavings :
 Proof. vm_compute. auto. Qed.
 
 (* ---------------------------------------------------------------------------------------------------------- *)
+(* 1'.  The same for the machine of Conc/NestModel.v: every Lock / RLock / Unlock / RUnlock is a step of its own, locks
+   nest the way the code nests them (no two-phase or single-level restriction), a sync.RWMutex has any number of
+   Shared holders or one Excl holder.  Hypothesis (race_free2_b, decidable): every conflicting pair of accesses of
+   different threads holds a common mutex at both accesses, exclusively on the side(s) that write; Once-initialised
+   locations are touched only after the thread's own Do.  Conclusion: the final state (store, every thread's reads,
+   lock table, Once flags) of ANY complete schedule is the final state of a schedule of UNITS, a unit being a whole
+   region - a maximal run of accesses of one thread between two synchronisation operations, e.g. the body of a
+   critical section - or a single lock / unlock / Once step.  So no access of another thread ever falls inside a
+   critical section in a way that could be told apart from running the section alone. *)
+Theorem race_free_region_serializable :
+  forall (wf : nat -> list nat -> nat) (obody : nat -> list (nat * nat))
+         (prog : list (list nitem)) (nloc nmut nonce : nat) (sched : list nat) (fin : pst2),
+    race_free2_b obody nonce prog = true ->
+    run2 wf obody (init2 prog nloc nmut nonce) sched = Some fin -> finished2 fin ->
+    exists order, run_units wf obody (init2 prog nloc nmut nonce) order = Some fin.
+Proof.
+  intros wf obody prog nl nm no sched fin Hrf Hrun Hfin.
+  exact (region_main wf obody (length sched) _ sched fin (le_n _) (init2_inv obody prog nl nm no Hrf) Hrun Hfin).
+Qed.
+Print Assumptions race_free_region_serializable.
+
+(* non-vacuity: a writer that holds mutex 0 exclusively (x++) and, nested inside it, mutex 1 (y++), against a reader
+   that reads x twice under RLock of mutex 0 and then does y++ under mutex 1.  All 2^16 candidate schedules of the
+   16 steps are enumerated; 41 are complete.  In every one of them the reader sees the same x twice (its region is
+   never cut by the writer), the two y++ do not lose an update, and the final store is x = 1, y = 2. *)
+Definition rw_prog : list (list nitem) :=
+  [locked Excl 0 ([rd 0; wr 0] ++ locked Excl 1 [rd 1; wr 1]);
+   locked Shared 0 [rd 0; rd 0] ++ locked Excl 1 [rd 1; wr 1]].
+Definition logs2_ok (f : pst2) : bool :=
+  match logs2 (pmem2 f) with
+  | [[0; yw]; [x1; x2; yr]] => (x1 =? x2) && (yw + yr =? 1)
+  | _ => false
+  end.
+Example rw_nested_all_interleavings :
+  race_free2_b no_once 0 rw_prog = true
+  /\ forallb (fun s => match run2 incr no_once (init2 rw_prog 2 2 0) s with
+                       | Some f => negb (finished2_b f) || (logs2_ok f && list_eqb (store2 (pmem2 f)) [1; 2])
+                       | None => true end) (all_scheds 2 16) = true
+  /\ length (filter (fun s => match run2 incr no_once (init2 rw_prog 2 2 0) s with
+                              | Some f => finished2_b f | None => false end) (all_scheds 2 16)) = 41.
+Proof. vm_compute. auto. Qed.
+
+(* two readers may hold the RWMutex together (a schedule in which both are inside at once runs); a write under RLock
+   is not race-free *)
+Example rw_readers_share :
+  (exists f, run2 incr no_once (init2 [locked Shared 0 [rd 0]; locked Shared 0 [rd 0]] 1 1 0) [0; 1; 0; 1; 0; 1] = Some f
+             /\ finished2_b f = true)
+  /\ race_free2_b no_once 0 [locked Shared 0 [rd 0]; locked Shared 0 [rd 0]; locked Excl 0 [wr 0]] = true
+  /\ race_free2_b no_once 0 [locked Shared 0 [wr 0]; locked Shared 0 [rd 0]] = false
+  /\ run2 incr no_once (init2 [locked Excl 0 [wr 0]; locked Shared 0 [rd 0]] 1 1 0) [0; 1] = None.   (* reader blocks *)
+Proof. split; [eexists; vm_compute; split; reflexivity|]. vm_compute. auto. Qed.
+
+(* ---------------------------------------------------------------------------------------------------------- *)
 (* 2.  The access table: every operation the property names (all rows except the caller-synchronised writers
    sm4.SetIV, x509.ContentEncryptionAlgorithm and CertPool construction), SetSessionTicketKeys at ANY time - also
    while the first handshake or Clone is initialising the Config - included. *)
 Definition C20_access_table_full : Prop :=
   forall threads : list (list op),
     (forall t, In t threads -> forall o, In o t -> In o claimed_ops) ->
-    race_free_b gm_obody n_once (program_of threads) = true.
+    race_free2_b gm_obody n_once (program_of threads) = true.
 
 Theorem gmsm_access_table_race_free : C20_access_table_full.
 Proof. intros threads H. exact (ops_ok_program claimed_ops threads claimed_ops_ok H). Qed.
 Print Assumptions gmsm_access_table_race_free.
 
-(* ... hence every interleaving of goroutines performing these operations on the shared objects is serialisable *)
+(* ... hence every interleaving of goroutines performing these operations on the shared objects is region-serialisable *)
 Theorem gmsm_claimed_operations_serializable :
   forall wf (threads : list (list op)) sched fin,
     (forall t, In t threads -> forall o, In o t -> In o claimed_ops) ->
-    run wf gm_obody (init (program_of threads) n_loc n_mut n_once) sched = Some fin -> finished fin ->
-    exists order, run_atomic wf gm_obody (init (program_of threads) n_loc n_mut n_once) order = Some fin.
+    run2 wf gm_obody (init2 (program_of threads) n_loc n_mut n_once) sched = Some fin -> finished2 fin ->
+    exists order, run_units wf gm_obody (init2 (program_of threads) n_loc n_mut n_once) order = Some fin.
 Proof.
   intros wf threads sched fin H Hr Hf.
-  exact (race_free_serializable wf gm_obody _ _ _ _ sched fin (gmsm_access_table_race_free threads H) Hr Hf).
+  exact (race_free_region_serializable wf gm_obody _ _ _ _ sched fin (gmsm_access_table_race_free threads H) Hr Hf).
 Qed.
 Print Assumptions gmsm_claimed_operations_serializable.
 
@@ -125,17 +180,47 @@ Example table_rejects_unsynchronised_writers :
   /\ ops_ok [certpool_add; cert_verify] = false
   /\ ops_ok [lru_put; lru_get; conn_read; conn_write; conn_close] = true
   /\ ops_ok [config_first_use; config_set_ticket_keys; config_clone; config_ticket_keys] = true
-  /\ pair_ok (flat [Free (Wr L_cfg_keys)]) (flat (code config_set_ticket_keys)) = false
-  /\ pair_ok (flat [Free (Wr L_conn_out)]) (flat (code conn_write)) = false.
-Proof. vm_compute. auto 8. Qed.
+  /\ pair_ok2 (annot [] [wr L_cfg_keys]) (annot [] (code config_set_ticket_keys)) = false
+  /\ pair_ok2 (annot [] (locked Shared M_cfg [wr L_cfg_keys])) (annot [] (code config_ticket_keys)) = false
+  /\ pair_ok2 (annot [] [wr L_conn_out]) (annot [] (code conn_write)) = false
+  /\ pair_ok2 (annot [] (locked Excl M_in [wr L_conn_out])) (annot [] (code conn_read)) = true     (* Read sends alerts holding c.in AND c.out *)
+  /\ pair_ok2 (annot [] (locked Excl M_in [wr L_conn_out])) (annot [] (code conn_write)) = false.
+Proof. vm_compute. auto 12. Qed.
+
+(* 2b.  Static tie between the table and the CURRENT source (Conc/SourceTie.v; Gen/ConcWriteSets.v is regenerated from
+   the source on every run): every write to shared state that the translator finds reachable from an exported entry
+   point of sm2 / sm3 / sm4 / x509 / gmtls (Config, session cache, loaders) is a Wr of (one of) the table row(s) of
+   that entry point under exactly the same mutexes, or a write of the initialiser of a Once that the row calls ... *)
+Theorem table_covers_source_writes :
+  forall e ws w, In (e, ws) gen_write_sets -> In w ws -> covered (rows_of_entry e) w = true.
+Proof. exact covers_spec. Qed.
+Print Assumptions table_covers_source_writes.
+
+(* ... and conversely every Wr of the tied rows and every write of the tied Once initialisers is found in the source *)
+Theorem table_writes_found_in_source : found_in_src = true.
+Proof. exact found_in_src_true. Qed.
+Print Assumptions table_writes_found_in_source.
+
+(* non-vacuity: the generated file is not empty, and the coverage test refuses writes the table does not have - a new
+   lazily initialised field of Sm4Cipher, memoisation into the shared CertPool from Verify, writing the elements of
+   the ticket-key slice in place - while it accepts the ones it has *)
+Example source_tie_examples :
+  (40 <=? length gen_write_sets) = true /\ (100 <=? gen_entry_points_analysed) = true
+  /\ covered [sm4_decrypt] ex_w_dsubkeys = false
+  /\ covered [cert_verify; cert_verify_sysroots] ex_w_pool_memo = false
+  /\ covered [config_set_ticket_keys] ex_w_key_elems = false
+  /\ covered [config_set_ticket_keys] ex_w_keys_unlocked = false
+  /\ covered [config_set_ticket_keys] ex_w_keys_locked = true
+  /\ covered [cert_verify; cert_verify_sysroots] ex_w_sysroots = true.
+Proof. vm_compute. auto 10. Qed.
 
 (* first use of a Config (serverInit, step by step as in gmtls/common.go since 43260b6) against one
    SetSessionTicketKeys: the program is race-free, and EVERY complete interleaving - a complete schedule of the two
-   threads has exactly 4 + 3 + 3 = 10 micro-steps - ends with the rotated keys (9); the initial keys (7) never
+   threads has exactly 7 + 3 = 10 steps - ends with the rotated keys (9); the initial keys (7) never
    overwrite a rotation.  This is the result of both sequential orders "first use; rotation" and
    "rotation; first use".  (All 1024 schedules of length 10 are swept; 3 of them are complete.) *)
 Theorem config_init_vs_rotate_rotation_kept :
-  race_free_b no_once 0 init_vs_rotate = true
+  race_free2_b no_once 0 init_vs_rotate = true
   /\ forall sched, length sched = 10%nat -> Forall (fun t => t < 2) sched ->
        forall r, final_store sched = Some r -> r = [9].
 Proof.
@@ -150,7 +235,7 @@ Print Assumptions config_init_vs_rotate_rotation_kept.
 Example config_init_vs_rotate_orders :
   final_store [0;0;0; 0;0;0;0; 1;1;1] = Some [9]       (* first use, then rotation *)
   /\ final_store [1;1;1; 0;0;0; 0;0;0;0] = Some [9]    (* rotation, then first use: keeps the keys it finds *)
-  /\ final_store [0;0;0; 1;1;1; 0;0;0;0] = Some [9]    (* rotation between the check and the installation *)
+  /\ final_store [0;0;0; 1;1;1; 0;0;0;0] = Some [9]    (* rotation between ticketKeys() and the installation *)
   /\ length (filter (fun s => match final_store s with Some _ => true | None => false end) (all_scheds 2 10)) = 3%nat.
 Proof. vm_compute. auto. Qed.
 
